@@ -33,10 +33,12 @@ from ...ast.fpyast import (
     Assign,
     Expr,
     ForStmt,
+    IfStmt,
     ListComp,
     ListRef,
     NamedId,
     Stmt,
+    StmtBlock,
     Var,
 )
 from ...utils import Unionfind
@@ -171,6 +173,36 @@ def _root_var(e: Expr) -> Var | None:
     return e if isinstance(e, Var) else None
 
 
+def _rebound_in_both_arms(
+    members: list[Definition], def_use: DefineUseAnalysis,
+) -> list[PhiDef]:
+    """The ``if``/``else`` phis of a class whose first writer is inside the
+    ``if`` they close -- so no writer of the class dominates both arms."""
+    assigns = [d for d in members if isinstance(d, AssignDef)]
+    if not assigns:
+        return []
+    first = min(assigns, key=lambda d: def_use.def_to_idx[d])
+    return [
+        d for d in members
+        if isinstance(d, PhiDef) and not d.is_loop
+        and isinstance(d.site, IfStmt)
+        and _contains_site(d.site, first.site)
+    ]
+
+
+def _contains_site(stmt: Stmt, site) -> bool:
+    """Whether *site* is *stmt* or a statement nested inside it."""
+    if stmt is site:
+        return True
+    for attr in ('ift', 'iff', 'body'):
+        block = getattr(stmt, attr, None)
+        if isinstance(block, StmtBlock) and any(
+            _contains_site(s, site) for s in block.stmts
+        ):
+            return True
+    return False
+
+
 def _is_external(members: list[Definition]) -> bool:
     for d in members:
         if isinstance(d, AssignDef) and (
@@ -287,6 +319,13 @@ class StorageInfer:
                 continue
             intro_phis = [d for d in members
                           if isinstance(d, PhiDef) and d.is_intro]
+            if not intro_phis:
+                # A name that already exists, rebound in *both* arms of an
+                # `if`/`else`: the plain rebinds start a fresh class, so its
+                # lowest-index writer sits inside the first arm and does not
+                # dominate the second.  The class is introduced at that `if`
+                # just as a fresh name would be.
+                intro_phis = _rebound_in_both_arms(members, def_use)
             if intro_phis:
                 anchor_phi = max(intro_phis, key=lambda d: def_use.def_to_idx[d])
                 hoists_before[anchor_phi.site].append(c)
